@@ -144,7 +144,7 @@ def check(program: Program, run: Run) -> None:
                 srccls = part.src[0].rsplit(".", 1)[0] if part.src else f.cls.qualname
                 ra2 = ra + ("[]" if "[]" in rp else "")
                 if rp.startswith("all("):
-                    ra2 = rp
+                    ra2 = rp[4:].rstrip(")") + "[]"    # Criterion.all(self._filters): the same operands as a loop over _filters
                 seen_r2.setdefault((srccls, ra2), (part, c))
     for (dc, k), classes in sorted(seen_r1.items()):
         what = {"never": "never emits its alias: an aliased instance in a defining position silently loses the name",
@@ -162,11 +162,23 @@ def check(program: Program, run: Run) -> None:
 
     # ---- R3 defining positions
     join_classes = [program.cls(n) for n in ("Join", "JoinOn", "JoinUsing")]
+    # what the statements hand to their joins: a join class that passes the flag on unchanged is judged under these values
+    delivered = set()
+    for bn in BUILDER_CLASSES:
+        skb, _ = render(program, program.cls(bn))
+        for part, conds, in_rep in walk_parts(skb):
+            if isinstance(part, SlotP) and root_attr(recv_path(part.recv)) == "_joins" and isinstance(part.ctx, CtxV):
+                delivered.add(part.ctx.fields["with_alias"])
+    if not delivered:
+        raise AnalysisError("anchor vanished: no statement renders its _joins")
+
+    def effective(v):
+        return set(delivered) if isinstance(v, Inh) and v.name == "with_alias" else {v}
     for jc in join_classes:
         sk, _ = render(program, jc)
         for part, conds, in_rep in walk_parts(sk):
             if isinstance(part, SlotP) and root_attr(recv_path(part.recv)) == "item" and isinstance(part.ctx, CtxV):
-                good = part.ctx.fields["with_alias"] == Const(True)
+                good = all(v == Const(True) for v in effective(part.ctx.fields["with_alias"]))
                 run.ob("C12/R3 defining slot turns alias printing on", f"{jc.qualname}:item", good, where=f"{part.src[2]}:{part.src[1]}")
                 if not good:
                     run.finding(f"C12/defining-alias:{jc.qualname}.item", f"{jc.qualname} renders the joined item without with_alias=True: its alias is never defined", rule="R3")
@@ -174,7 +186,7 @@ def check(program: Program, run: Run) -> None:
                 # the join condition (ON criterion / USING fields) is an expression position, not a defining one
                 rp = recv_path(part.recv)
                 v = part.ctx.fields["with_alias"]
-                good = v != Const(True)
+                good = all(v_ != Const(True) for v_ in effective(v))
                 run.ob("C12/R3 join condition is not rendered as a defining position", f"{jc.qualname}:{rp}", good, detail=f"with_alias={show(v)}",
                        where=f"{part.src[2]}:{part.src[1]}" if part.src else "")
                 if not good:
@@ -221,7 +233,7 @@ def check(program: Program, run: Run) -> None:
             src = getattr(part, "src", ())
             if not src or fq not in src[3]:
                 continue
-            if isinstance(part, Hole) and show(part.value).endswith(".alias") and attr in show(part.value):
+            if isinstance(part, Hole) and show(part.value).endswith(".alias") and (attr in show(part.value) or "_selects" in show(part.value)):
                 alias_holes += 1
                 def _alias_source(e) -> bool:
                     t = show(e)
